@@ -46,8 +46,8 @@ def build_case(rng, tier, kind, policy):
 
 
 def generate(rng, tier):
-    plan = [("small", 10), ("split", 8), ("catalog", 2)] if tier == "quick" else \
-           [("small", 70), ("split", 50), ("catalog", 12)]
+    plan = [("small", 10), ("split", 8), ("manytables", 6), ("catalog", 2)] if tier == "quick" else \
+           [("small", 70), ("split", 50), ("manytables", 30), ("catalog", 12)]
     cases = []
     for kind, n in plan:
         for i in range(n):
